@@ -25,9 +25,10 @@ func registerAll() {
 		MustProbes: []string{"binding_evaluated", "verify_after_failed_sign", "fresh_verify_ok", "unmarshal_claims_fail_envelope_ok", "sig.err", "sig.empty", "sig.badalg", "sig.shortsig", "codec.marshal_err"},
 	}
 	props["C08"] = &propSpec{
-		ID: "C08", Worlds: []string{"W-EVID"}, QuickRuns: 4000, ThoroughRuns: 400000,
-		Rule: "one run = one history over an Evidence and a pool of claims-sets in assorted states (valid, invalid by construction, invalid by later mutation, extension codec with faults) exercising the seven validating gates; " +
-			"non-trivial = at least one gate evaluated with claims whose Validate() fails and one with claims whose Validate() succeeds; distinct = distinct hash of (operation-kind+fault sequence, pools)",
+		ID: "C08", Worlds: []string{"W-EVID", "W-DEC"}, QuickRuns: 4000, ThoroughRuns: 400000,
+		Rule: "even run indices (W-EVID): one history over an Evidence and a pool of claims-sets in assorted states (valid, invalid by construction, invalid by later mutation, extension codec with faults) exercising the seven validating gates; " +
+			"odd run indices (W-DEC): real COSE / CBOR / JSON messages damaged in flight or structurally mutated at any tree node and re-signed by a Byzantine attester (so that they still decode but are invalid in every way a tree can be), each delivered to the three decoders and their validating twins; " +
+			"non-trivial = at least one gate evaluated with claims whose Validate() fails and one with claims whose Validate() succeeds; distinct = distinct hash of (operation-kind+fault sequence, pools / message kinds)",
 		Real: commonReal, Stubs: stubsEvid,
 		Assumptions: []string{"the oracle is differential: Validate() of the real code and the non-validating sibling are the reference, no validation constant is mirrored"},
 	}
@@ -97,8 +98,8 @@ func registerAll() {
 		MustProbes: []string{"decoded_ok", "net.leninflate", "net.nest", "net.pad", "net.truncate", "max_steps_in_one_call"},
 	}
 
-	stubsReg := []string{"five sim profile kinds (extension over P1, over P2, own JSON profile member, no profile field, profile field without json tag)", "hook T3 (register snapshot/restore, injected into the scratch copy only)", "seam T1 (map iteration order chosen by the simulator)"}
-	regRule := "one run = the pristine register, a pool of 1..8 candidate profile names and a history of 1..40 operations {register (five profile kinds; new, duplicate and built-in names), re-register, NewClaims, dispatching decode of one of ~50 probe documents (both serialisations; every pool / built-in / unknown name under every profile member; no profile, null, non-string, both profiles' members), mutate-one-instance-read-the-other (two NewClaims results, two profiles, the same buffer decoded twice; 15 mutation kinds incl. writes through slices handed out by getters)}; every JSON dispatch is repeated under reverse and 2..10 permuted registry iteration orders; before and after EVERY registration attempt the whole probe set and NewClaims of every name are evaluated. "
+	stubsReg := []string{"eight sim profile kinds (extension over P1; over P2; own JSON profile member; own member whose json tag carries an option; two embedded structs with the profile-bearing one second; profile-1 shaped with a plain-text profile under key 265 and names that are not URIs; no profile field; profile field without json tag)", "hook T3 (register snapshot/restore, injected into the scratch copy only)", "seam T1 (map iteration order chosen by the simulator)"}
+	regRule := "one run = the pristine register, a pool of 1..8 candidate profile names (URIs, a URN and two plain strings) and a history of 1..40 operations {register (eight profile kinds; new, duplicate and built-in names), re-register, NewClaims, dispatching decode of one of ~50 probe documents (both serialisations; every pool / built-in / unknown name under every profile member; no profile, null, non-string, both profiles' members), mutate-one-instance-read-the-other (two NewClaims results, two profiles, the same buffer decoded twice; 16 mutation kinds incl. writes through slices handed out by getters and in-place edits of the instance's profile object)}; every JSON dispatch is repeated under reverse and 2..10 permuted registry iteration orders; before and after EVERY registration attempt the whole probe set and NewClaims of every name are evaluated. "
 	props["C16"] = &propSpec{
 		ID: "C16", Worlds: []string{"W-REG"}, QuickRuns: 3000, ThoroughRuns: 300000, Isolated: true,
 		Rule: regRule + "non-trivial = at least one successful and one failed registration and one JSON dispatch evaluated under several orders with an extra profile registered; distinct = distinct hash of (operation kinds with outcomes, name pool)",
@@ -112,7 +113,7 @@ func registerAll() {
 		Rule: regRule + "For C07 each dispatch is compared with a reference dispatch over the model register (declared name -> registered kind; nothing declared -> profile 1; unregistered or non-string value -> error) and with decoding the same bytes straight into a fresh NewClaims(declared) instance and validating it. non-trivial = at least one accepted token whose reported profile was checked, with an extra profile registered; distinct as for C16",
 		Real: commonReal, Stubs: stubsReg,
 		Assumptions: []string{"documents the property leaves open (profile claim null in CBOR, both profiles' members, a registered name under another profile's member) get only the weak invariant: never decoded as a profile other than a declared one or the default"},
-		MustProbes:  []string{"accepted_token_profile_checked", "dispatch_expect_error", "dispatch_expect_p1", "dispatch_expect_p2", "dispatch_expect_xp1", "dispatch_expect_xp2", "dispatch_expect_own", "dispatch_weak"},
+		MustProbes:  []string{"accepted_token_profile_checked", "dispatch_expect_error", "dispatch_expect_p1", "dispatch_expect_p2", "dispatch_expect_xp1", "dispatch_expect_xp2", "dispatch_expect_own", "dispatch_expect_opt", "dispatch_expect_two", "dispatch_expect_str", "dispatch_weak"},
 	}
 
 	props["C17"] = &propSpec{
